@@ -6,7 +6,9 @@ import checklib
 def regen(ctx):
     wp = "runtime/workerpool/workerpool.go:WorkerPool."
     return checklib.regen_skeletons(ctx, [
-        wp + "Start", wp + "Submit", wp + "IsRunning", wp + "Shutdown", wp + "dispatcher", wp + "startDispatcher",
+        wp + "Start", wp + "startIfStopped", wp + "Submit", wp + "increasePendingTasksIfRunning",
+        wp + "decreasePendingTasks", wp + "hasWork", wp + "IsRunning", wp + "Shutdown", wp + "stop",
+        wp + "dispatcher", wp + "startDispatcher",
         wp + "startWorkers", wp + "worker", wp + "workerReadLoop", wp + "handleShutdown",
         "runtime/workerpool/task.go:Task.run", "runtime/workerpool/task.go:Task.markDone",
         "runtime/syncutils/stack.go:Stack.Push", "runtime/syncutils/stack.go:Stack.PopOrWait",
@@ -17,29 +19,31 @@ def regen(ctx):
         "runtime/workerpool/group.go:Group.WaitChildren"],
         extra_methods=["IsRunning", "Push", "PopOrWait", "Size", "SignalShutdown", "WaitIsZero", "Increase", "Decrease",
                        "Subscribe", "notifySubscribers", "run", "markDone", "doneCallback", "workerFunc", "Wait",
-                       "increasePendingTasks", "decreasePendingTasks", "verifSubmitWindow", "verifPopOrWaitGap"])
+                       "increasePendingTasksIfRunning", "decreasePendingTasks", "hasWork", "stop", "startIfStopped", "Get",
+                       "Load", "Add", "verifSubmitWindow", "verifPopOrWaitGap", "verifStartWindow"])
 
 
 SPEC = {
-    "lean_props": "Hive.Props.C16",
+    "lean_props": ["Hive.Props.C16", "Hive.Props.C16Old"],
     "regen": regen,
-    "lean_namespace": ["Hive.WP", "Hive.WPG"],
+    "lean_namespace": ["Hive.WP", "Hive.WPG", "Hive.WPOld"],
     "driver": "drv_c16",
     "harness": "c16",
     "harness_timeout": {"quick": 1500, "thorough": 6000},
     "race": False,
-    "theorems": ["C16_conservation", "C16_no_run_after_shutdown_complete", "C16_shutdown_terminates_partial",
-                 "C16_exactly_once_partial", "C16_start_spawns_clean", "C16_group_wait", "C16_submit_window_lost_witness",
-                 "C16_submit_window_hang_witness", "C16_signal_lost_witness", "C16_statement_fails_witness",
-                 "C16_old_start_witness", "C16_restart_example", "C16_group_example",
-                 "C16_skeleton_WorkerPool_Start", "C16_skeleton_WorkerPool_Submit", "C16_skeleton_WorkerPool_IsRunning", 
-                 "C16_skeleton_WorkerPool_Shutdown", "C16_skeleton_WorkerPool_dispatcher", "C16_skeleton_WorkerPool_startDispatcher", 
-                 "C16_skeleton_WorkerPool_startWorkers", "C16_skeleton_WorkerPool_worker", "C16_skeleton_WorkerPool_workerReadLoop", 
-                 "C16_skeleton_WorkerPool_handleShutdown", "C16_skeleton_Task_run", "C16_skeleton_Task_markDone", 
-                 "C16_skeleton_Stack_Push", "C16_skeleton_Stack_PopOrWait", "C16_skeleton_Stack_Size", 
-                 "C16_skeleton_Stack_SignalShutdown", "C16_skeleton_Counter_Update", "C16_skeleton_Counter_update", 
-                 "C16_skeleton_Counter_WaitIsBelow", "C16_skeleton_Group_CreatePool", "C16_skeleton_Group_CreateGroup", 
-                 "C16_skeleton_Group_WaitChildren"],
+    "theorems": ["C16_conservation", "C16_no_run_after_shutdown_complete", "C16_shutdown_terminates", "C16_exactly_once",
+                 "C16_start_spawns_clean", "C16_group_wait", "C16_forced_schedules_example", "C16_group_example",
+                 "C16_old_submit_window_lost_witness", "C16_old_submit_window_hang_witness", "C16_old_signal_lost_witness",
+                 "C16_old_start_witness", "C16_old_start_race_witness",
+                 "C16_skeleton_WorkerPool_Start", "C16_skeleton_WorkerPool_startIfStopped", "C16_skeleton_WorkerPool_Submit", 
+                 "C16_skeleton_WorkerPool_increasePendingTasksIfRunning", "C16_skeleton_WorkerPool_decreasePendingTasks", "C16_skeleton_WorkerPool_hasWork", 
+                 "C16_skeleton_WorkerPool_IsRunning", "C16_skeleton_WorkerPool_Shutdown", "C16_skeleton_WorkerPool_stop", 
+                 "C16_skeleton_WorkerPool_dispatcher", "C16_skeleton_WorkerPool_startDispatcher", "C16_skeleton_WorkerPool_startWorkers", 
+                 "C16_skeleton_WorkerPool_worker", "C16_skeleton_WorkerPool_workerReadLoop", "C16_skeleton_WorkerPool_handleShutdown", 
+                 "C16_skeleton_Task_run", "C16_skeleton_Task_markDone", "C16_skeleton_Stack_Push", 
+                 "C16_skeleton_Stack_PopOrWait", "C16_skeleton_Stack_Size", "C16_skeleton_Stack_SignalShutdown", 
+                 "C16_skeleton_Counter_Update", "C16_skeleton_Counter_update", "C16_skeleton_Counter_WaitIsBelow", 
+                 "C16_skeleton_Group_CreatePool", "C16_skeleton_Group_CreateGroup", "C16_skeleton_Group_WaitChildren"],
     "trusted_base": [
         "hand-written protocol model Hive/Model/WorkerPool.lean of runtime/workerpool (workerpool.go, task.go) and of the parts of runtime/syncutils it uses (Counter.Update/WaitIsZero, Stack.Push/PopOrWait/Size/SignalShutdown)",
         "tie = event traces of the real code judged by the same trace predicate (Hive/Spec/WorkerPool.lean) + forced schedules through the verif hooks whose outcome must equal the model's + independent Go oracle",
